@@ -14,7 +14,7 @@ pub fn prop() -> Prop {
     Prop {
         id: "C07",
         level: "model_checking",
-        rule: "(a) the full table of < <= > >= = != over an 89-text universe (with -0, -0.0 next to 0, 0.0) of all types (equal-by-value spellings, numbers |n|<2^53 or non-integral) through the real functions, then totality, antisymmetry w.r.t. =, transitivity over all triples, congruence of =, agreement with the documented order; (b) --sort-by on all streams of <=5 (thorough <=6) rows {k,v,id} over the keys {\"b\",\"a\",2,null,absent} x 17 key/direction configurations (1..3 keys; omitted/ASC/DESC/asc/Desc; `=` and blank separators), all streams of <=4 (thorough <=5) rows over 16 keys of all types (0 and -0 among them) in both directions, and long streams with >11 distinct keys and >8 rows per key; (c) sort, sort_unique, sort_by, sort_by_keys, sort_by_values, sort_by_values_by on all lists/objects of <=5 (thorough <=6) elements over an 8-value universe, and on lists/objects of 20..100 elements with distinguishable ties; non-trivial = the input holds a tie between distinguishable rows, an absent key or two types; distinct by construction",
+        rule: "(a) the full table of < <= > >= = != over an 89-text universe (with -0, -0.0 next to 0, 0.0) of all types (equal-by-value spellings, numbers |n|<2^53 or non-integral) through the real functions, then totality, antisymmetry w.r.t. =, transitivity over all triples, congruence of =, agreement with the documented order; (b) --sort-by on all streams of <=5 (thorough <=7) rows {k,v,id} over the keys {\"b\",\"a\",2,null,absent} x 17 key/direction configurations (1..3 keys; omitted/ASC/DESC/asc/Desc; `=` and blank separators), all streams of <=4 (thorough <=5) rows over 16 keys of all types (0 and -0 among them) in both directions, and long streams with >11 distinct keys and >8 rows per key; (c) sort, sort_unique, sort_by, sort_by_keys, sort_by_values, sort_by_values_by on all lists/objects of <=5 (thorough <=6) elements over an 8-value universe, and on lists/objects of 20..100 elements with distinguishable ties; non-trivial = the input holds a tie between distinguishable rows, an absent key or two types; distinct by construction",
         explanation: "rows carry ids, so permutation, stability and multi-key order are observable; the output is compared with the reference pipeline (stable lexicographic insertion sort under the documented order) and, independently, checked to be a permutation of the sortable rows in which tied neighbours keep arrival order",
         assumptions: COMMON_ASSUMPTIONS.to_vec(),
         guards: vec!["tie-between-distinguishable-rows", "absent-key-dropped", "mixed-types", "three-keys", "desc", "more-than-11-distinct-keys", "more-than-8-rows-per-key", "order-table-complete", "function-sorts-with-ties"],
@@ -289,7 +289,7 @@ fn run(ctx: &mut Ctx) {
     // (b) --sort-by
     let keys5: Vec<Option<V>> = vec![Some(V::s("b")), Some(V::s("a")), Some(V::int(2)), Some(V::Null), None];
     let cfgs = sort_cfgs();
-    let maxlen = ctx.tier.pick(5usize, 6);
+    let maxlen = ctx.tier.pick(5usize, 7);
     for len in 0..=maxlen {
         let mut todo: Vec<Vec<usize>> = Vec::new();
         crate::explore::seqs_exact(keys5.len(), len, |i| todo.push(i.to_vec()));
@@ -370,7 +370,7 @@ fn run(ctx: &mut Ctx) {
                 check_function(ctx, f, &list);
             }
             // objects: member names in a scrambled order, values from the universe
-            let names = ["m", "c", "x", "a", "q"];
+            let names = ["m", "c", "x", "a", "q", "b", "z"];
             let obj = V::Obj(idx.iter().enumerate().map(|(j, i)| (names[j].to_string(), u8v[*i].clone())).collect());
             for f in obj_fns {
                 check_function(ctx, f, &obj);
